@@ -345,6 +345,16 @@ func WithAnons(fn *ssa.Function) []*ssa.Function {
 	for _, a := range fn.AnonFuncs {
 		out = append(out, WithAnons(a)...)
 	}
+	// the closures of a transparent helper belong to its caller; the helper itself is reached
+	// through the caller's instruction searches, so only its closures are added here
+	for _, h := range transparentCalleesOf(fn) {
+		for _, a := range h.AnonFuncs {
+			out = append(out, WithAnons(a)...)
+		}
+		for _, hh := range transparentCalleesOf(h) {
+			out = append(out, WithAnons(hh)[1:]...)
+		}
+	}
 	return out
 }
 
